@@ -1,4 +1,4 @@
-/- K6 lemmas behind the SMT axioms sqrt_3mod4 / sqrt_5mod8 of contracts/numbertheory.py.
+/- K6 lemmas behind the SMT axioms sqrt_3mod4 / sqrt_5mod8 and jac_* of contracts/numbertheory.py.
    Checked by `lean lean/NumberTheory.lean` in the thorough tier of C15. -/
 import Mathlib
 open ZMod
@@ -66,3 +66,33 @@ theorem sqrt_5mod8 (p : ℕ) [hp : Fact p.Prime] (h8 : p % 8 = 5) (a : ZMod p) (
       have e : (p - 5) / 4 = (p - 5) / 8 * 2 := by omega
       rw [e, pow_mul]; ring
     rw [this, key, mul_one]
+
+open NumberTheorySymbols
+
+/-- Jacobi-symbol facts behind the SMT axioms jac_* of contracts/numbertheory.py (`jacobiSym` is by definition the product of
+    the Legendre symbols over the prime factorisation of the modulus). -/
+theorem jac_range (a : ℤ) (n : ℕ) : J(a | n) = 0 ∨ J(a | n) = 1 ∨ J(a | n) = -1 := jacobiSym.trichotomy a n
+
+theorem jac_mod_left (a : ℤ) (n : ℕ) : J(a % n | n) = J(a | n) := (jacobiSym.mod_left a n).symm
+
+theorem jac_zero (n : ℕ) (h : 1 < n) : J(0 | n) = 0 := jacobiSym.zero_left h
+
+theorem jac_one (n : ℕ) : J(1 | n) = 1 := jacobiSym.one_left n
+
+theorem jac_mul_two (a : ℤ) (n : ℕ) : J(2 * a | n) = J(2 | n) * J(a | n) := jacobiSym.mul_left 2 a n
+
+theorem jac_at_two (n : ℕ) (h : n % 2 = 1) : J(2 | n) = if n % 8 = 1 ∨ n % 8 = 7 then 1 else -1 := by
+  rw [jacobiSym.at_two (Nat.odd_iff.mpr h), ZMod.χ₈_nat_eq_if_mod_eight]
+  have h8 : n % 8 = 1 ∨ n % 8 = 3 ∨ n % 8 = 5 ∨ n % 8 = 7 := by omega
+  rcases h8 with h1 | h1 | h1 | h1 <;> simp [h1, h]
+
+theorem jac_reciprocity (a n : ℕ) (ha : a % 2 = 1) (hn : n % 2 = 1) :
+    J(a | n) = (if a % 4 = 3 ∧ n % 4 = 3 then -1 else 1) * J(n | a) := by
+  have h := jacobiSym.quadratic_reciprocity_if ha hn
+  split_ifs at h ⊢ with hc
+  · rw [← h]; ring
+  · rw [← h]; ring
+
+theorem jac_legendre (p : ℕ) [Fact p.Prime] (a : ℤ) : J(a | p) = -1 ↔ ¬ IsSquare (a : ZMod p) := by
+  rw [← jacobiSym.legendreSym.to_jacobiSym]
+  exact legendreSym.eq_neg_one_iff p
